@@ -247,6 +247,22 @@ pub fn run(ctx: &Ctx) -> i32 {
         }
     }
 
+    // tokens of 250..=260 and 510..=514 digits (leading zeros): counters of digits or characters
+    // in the parser must not be narrower than the token is long
+    for n in (250usize..=260).chain(510..=514) {
+        let zeros = "0".repeat(n - 4);
+        for tok in [format!("x{zeros}beef"), format!("{zeros}1234"), format!("#{zeros}0042"), format!("b{zeros}1011"), format!("o{zeros}0777"), format!("-x{zeros}0001"), format!("x{zeros}beeg"), format!("lbl+{zeros}0001"), format!("^{zeros}0002"), format!("^-x{zeros}0002")] {
+            acc.eval("b/long-tokens");
+            for c in [0usize, 1, 2, 4] {
+                if let Err((sig, what)) = judge_parse(c, &tok) {
+                    let short: String = what.chars().take(300).collect();
+                    acc.violation(format!("C14/{}/long-token", sig.split('/').take(2).collect::<Vec<_>>().join("/")), format!("token of {} characters: {short}", tok.len()), json!({"line": line(c, &tok), "context": c, "token": tok}));
+                } else {
+                    acc.nontrivial();
+                }
+            }
+        }
+    }
     // (c) command names: documented names in three letter cases; every word of <= 3 letters
     for (name, debug, args) in DOCUMENTED {
         for variant in [name.to_string(), name.to_uppercase(), mixed(name)] {
@@ -466,7 +482,7 @@ pub fn run(ctx: &Ctx) -> i32 {
         ctx,
         acc,
         Level { category: "model_checking", bfs: None },
-        "bounded-exhaustive enumeration: (a) every string of length 1..=5 (quick) / 6 (thorough) over the 19-character alphabet {+ - # x o b 0 1 7 9 a f g ^ r _ é ı Ų} in each of six argument positions (integer value, step count, location of print / move, address of goto / break add), parsed by the real command parser and by the reference recogniser of the documented grammar: same acceptance and, when accepted, the same command with the same values (Debug rendering); (b) every value 0..65535 and -1..-32768 in every documented spelling (sign before or after the prefix, optional leading zero, 4 radices, letter case, leading zeros) as integer, as address and as PC offset, plus the i32 boundary and the values MAX/radix (+1) in each radix, bare and followed by label characters or an offset; (c) every name documented in help.txt in three letter cases and every word of <= 3 letters with four argument shapes (totality, case-insensitivity); (d) every token of length <= 3 (thorough 4, stride 5) through the real debugger (`move r1 T`, `goto T`, `break add T`) against the reference debugger: accepted tokens have exactly the documented effect, rejected ones none; (e) 18 scripts (incl. 2-, 3- and 4-byte characters) x every split point between --command and stdin x ';'/newline per gap x trailing separator through the real binary: identical exit status, stdout and stderr. A seeded random supplement of longer strings with multi-byte characters is run and reported separately (sampling, not part of the exhaustive claim). non-trivial = accepted-and-equal parses + agreeing sessions / variants",
+        "bounded-exhaustive enumeration: (a) every string of length 1..=5 (quick) / 6 (thorough) over the 19-character alphabet {+ - # x o b 0 1 7 9 a f g ^ r _ é ı Ų} in each of six argument positions (integer value, step count, location of print / move, address of goto / break add), parsed by the real command parser and by the reference recogniser of the documented grammar: same acceptance and, when accepted, the same command with the same values (Debug rendering); (b) every value 0..65535 and -1..-32768 in every documented spelling (sign before or after the prefix, optional leading zero, 4 radices, letter case, leading zeros) as integer, as address and as PC offset, plus the i32 boundary and the values MAX/radix (+1) in each radix, bare and followed by label characters or an offset, and tokens of 250-260 and 510-514 digits; (c) every name documented in help.txt in three letter cases and every word of <= 3 letters with four argument shapes (totality, case-insensitivity); (d) every token of length <= 3 (thorough 4, stride 5) through the real debugger (`move r1 T`, `goto T`, `break add T`) against the reference debugger: accepted tokens have exactly the documented effect, rejected ones none; (e) 18 scripts (incl. 2-, 3- and 4-byte characters) x every split point between --command and stdin x ';'/newline per gap x trailing separator through the real binary: identical exit status, stdout and stderr. A seeded random supplement of longer strings with multi-byte characters is run and reported separately (sampling, not part of the exhaustive claim). non-trivial = accepted-and-equal parses + agreeing sessions / variants",
         true,
         &["strings-enumerated", "transport-variants-agree"],
         &["reference grammar = refmodel::cmdlang, validated against the repository's own parser tests by `lacemc selftest`", "negative step counts are not judged (help.txt says Integer, a code comment says non-positive means 1, the code casts to u16)"],
